@@ -52,6 +52,7 @@ macro "idx_tac" : tactic => `(tactic| (
 theorem H_add (a b : Nat) : H (a + b) = H a ++ H b := by
   simp [H, List.replicate_append_replicate]
 theorem H_congr {a b : Nat} (h : a = b) : H a = H b := by rw [h]
+theorem H_eq_cons {a b : Nat} (h : b = a + 1) : Slot.hole :: H a = H b := by rw [h]; simp
 
 theorem Vec.ext' {v : Vec} {s : List Slot} (h : v.slots = s) :
     v = { v with slots := s } := by cases v; simp_all
@@ -173,6 +174,47 @@ theorem copy_fwd {v : Vec} {A M T : List Slot} {k src dst n : Nat} (hs : v.slots
     · intro j hj
       simp only [hs, get4, getH, length_H]
       idx_tac
+
+theorem get5 {α} (A B C D E : List α) (j : Nat) :
+    (A ++ B ++ C ++ D ++ E)[j]? =
+      if j < A.length then A[j]?
+      else if j < A.length + B.length then B[j - A.length]?
+      else if j < A.length + B.length + C.length then C[j - A.length - B.length]?
+      else if j < A.length + B.length + C.length + D.length then D[j - A.length - B.length - C.length]?
+      else E[j - A.length - B.length - C.length - D.length]? := by
+  rw [List.getElem?_append]
+  simp only [get4, List.length_append]
+  repeat' split
+  all_goals first | rfl | omega | (congr 1; omega)
+
+theorem single_get (x : Slot) (j : Nat) : [x][j]? = if j = 0 then some x else none := by
+  cases j <;> simp
+
+/-- one element jumps back over `B` into a hole: `A ++ hole :: B ++ x :: T` → `A ++ x :: B ++ hole :: T` -/
+theorem copy_one_back {v : Vec} {A B T : List Slot} {x : Slot} {src dst : Nat}
+    (hs : v.slots = A ++ [Slot.hole] ++ B ++ [x] ++ T) (hsrc : src = A.length + 1 + B.length) (hdst : dst = A.length) :
+    copy v src dst 1 = .ok { v with slots := A ++ [x] ++ B ++ [Slot.hole] ++ T } := by
+  subst hsrc hdst
+  unfold copy
+  rw [if_neg (by omega)]
+  have hcap : v.cap = A.length + 1 + B.length + 1 + T.length := by simp [Vec.cap, hs]; omega
+  rw [if_neg (by omega), if_neg (by omega)]
+  rw [copyClobbers_none_of]
+  · simp only
+    congr 2
+    apply List.ext_getElem?
+    intro j
+    simp only [getElem?_map_range, copySlot, hcap, hs, List.getD_eq_getElem?_getD, get5, single_get, List.length_singleton]
+    repeat' split
+    all_goals first
+      | omega | rfl | (congr 1; omega) | (apply some_getD_eq <;> omega)
+      | (simp; omega) | simp | skip
+  · intro j hj
+    simp only [hs, get5, single_get, List.length_singleton]
+    repeat' split
+    all_goals first
+      | omega | rfl | (congr 1; omega) | (apply some_getD_eq <;> omega)
+      | (simp; omega) | simp | skip
 
 theorem copyNonoverlapping_back {v : Vec} {A M T : List Slot} {k src dst n : Nat} (hs : v.slots = A ++ H k ++ M ++ T)
     (hsrc : src = A.length + k) (hdst : dst = A.length) (hn : n = M.length) (hk : M.length ≤ k) :
